@@ -87,7 +87,7 @@ def check_worker(prog, rep):
         raise AnalysisError('Worker.put_task: no return-dict parameter')
     stores = [st for st in stmts_of(run) if isinstance(st, ast.Assign) and isinstance(
         st.targets[0], ast.Subscript) and isinstance(st.targets[0].value, ast.Name) and
-        st.targets[0].value.id == rd[0]]
+        st.targets[0].value.id.split('__')[0] == rd[0]]   # (locals of an inlined helper: name__helperN)
     if not stores:
         raise AnalysisError('Worker.run: the store into %s was not found' % rd[0])
 
@@ -226,11 +226,14 @@ def check_worker(prog, rep):
                       'dead', ta.lineno)
     # run(): result stored only if return_dict is not None, keyed by return_key
     rep.instance('SYNC-result-key', {'function': 'Worker.run'})
+    base = lambda x: (x or '').split('__')[0]      # locals of an inlined helper: name__helperN
     stores = [s for s in stmts_of(run) if isinstance(s, ast.Assign) and any(
-        isinstance(t, ast.Subscript) and dotted(t.value) == 'return_dict' for t in s.targets)]
+        isinstance(t, ast.Subscript) and base(dotted(t.value)) == 'return_dict' for t in s.targets)]
+    fct_names = sorted({x.id for x in ast.walk(run) if isinstance(x, ast.Name) and
+                        base(x.id) == 'fct'}) or ['fct']
     for s in stores:
         t = s.targets[0]
-        if unparse(t.slice) != 'return_key' or not depends_on(run, s.value, ['fct']):
+        if base(unparse(t.slice)) != 'return_key' or not depends_on(run, s.value, fct_names):
             rep.violation('SYNC-result-key', m, 'Worker.run', 'result-store',
                           'the task result must be stored as return_dict[return_key] = fct(...)',
                           s.lineno)
